@@ -240,15 +240,23 @@ func (e *executor) execute(ctx context.Context, index string, q *pql.Query, shar
 
 	// If shards are specified, then use that value for shards. If shards aren't
 	// specified, then include all of them.
-	if len(shards) == 0 && needsShards {
+	allShards := len(shards) == 0 && needsShards
+	availableShards := func() ([]uint64, error) {
 		// Round up the number of shards.
 		idx := e.Holder.Index(index)
 		if idx == nil {
 			return nil, ErrIndexNotFound
 		}
-		shards = idx.AvailableShards().Slice()
+		shards := idx.AvailableShards().Slice()
 		if len(shards) == 0 {
 			shards = []uint64{0}
+		}
+		return shards, nil
+	}
+	if allShards {
+		var err error
+		if shards, err = availableShards(); err != nil {
+			return nil, err
 		}
 	}
 
@@ -259,9 +267,18 @@ func (e *executor) execute(ctx context.Context, index string, q *pql.Query, shar
 
 	// Execute each call serially.
 	results := make([]interface{}, 0, len(q.Calls))
-	for _, call := range q.Calls {
+	for i, call := range q.Calls {
 		if err := validateQueryContext(ctx); err != nil {
 			return nil, err
+		}
+
+		// An earlier call of this request may have written to a shard
+		// that did not exist when the list was made.
+		if allShards && i > 0 {
+			var err error
+			if shards, err = availableShards(); err != nil {
+				return nil, err
+			}
 		}
 
 		v, err := e.executeCall(ctx, index, call, shards, opt)
